@@ -27,6 +27,9 @@ func c16Struct(r *h.Rand, sc *gen.Schema, depth int, n *int) *gen.StructT {
 	*n++
 	st := &gen.StructT{Name: fmt.Sprintf("R%d", *n)}
 	nf := 2 + r.Intn(5)
+	if *n > 1 && r.Chance(15) {
+		nf = 0 // a struct that declares no fields (below the root)
+	}
 	used := map[int16]bool{}
 	for i := 0; i < nf; i++ {
 		var id int16
@@ -419,7 +422,24 @@ func runC16(c *h.Ctx) {
 		withUnknown := cs.R.Chance(25)
 		if withUnknown {
 			vv := v.Clone()
-			vv.Fs = append(vv.Fs, tref.Field{ID: 30999, V: tref.Int32(1)})
+			// the undeclared member sits in the root or in any struct below it (field value, list element, map value)
+			target := vv
+			if cs.R.Bool() {
+				var sts []*tref.Val
+				tref.Walk(vv, func(x *tref.Val, d int) {
+					if x.T == tref.STRUCT && d > 0 {
+						sts = append(sts, x)
+					}
+				})
+				if len(sts) > 0 {
+					target = sts[cs.R.Intn(len(sts))]
+					cs.Cover("unknown_member_below_root")
+					if len(target.Fs) == 0 {
+						cs.Cover("unknown_member_in_empty_struct")
+					}
+				}
+			}
+			target.Fs = append(target.Fs, tref.Field{ID: 30999, V: tref.Int32(1)})
 			b = tref.Encode(vv)
 		}
 		tc := t2j.NewBinaryConv(copts)
